@@ -115,9 +115,9 @@ pub mod ha0 {
       r2(0);
       r3(v1, v1) <-- if let Some(v0) = Some(1), r2(v1);
       r4(((*v1) + 1), v2) <-- r2(0), r5(v0, v1, v2), if ((*v1) < 6);
-      r6(v2, v21) <-- r5(v0, v1, v2), agg v21 = min(v20) in r2(v20);
-      r7(v1, v21) <-- r5(v0, v1, v2), agg v21 = sum(v20) in r3(v20, (*v2));
-      r8(v0) <-- r1(v0), agg v21 = count() in r7(_, (*v0));
+      r6(v2, v21) <-- r5(v0, v1, v2), r4(v33, v1), r0(v34, v35, v36), agg v21 = min(v20) in r2(v20);
+      r7(v1, v21) <-- r4(v0, v1), agg v21 = sum(v20) in r0(v20, _, _);
+      r8(v0) <-- r1(v0), r3(v0, v0), agg v21 = max(v20) in r5(v20, _, _);
    }
    pub struct Inst { p: Prog, pool: Option<ascent::rayon::ThreadPool> }
    pub fn make(pool: Option<usize>) -> Box<dyn Driver> {
